@@ -2,7 +2,7 @@
 routing in the templates, one predicate everywhere, set semantics of tag sets."""
 import ast
 
-from ..astq import is_name, is_self_attr, returns_of, parse_fixture
+from ..astq import conds, facts_of, is_name, is_self_attr, parse_fixture, returns_of
 from ..core import AnalysisError, norm, walk_local
 from ..xform import query as Q
 from ..xform.terms import (Copy, GenericVisit, Ident, In, InList, Lib, Node, Raise, Rec, Star, SymStr, Visit, children, walk)
@@ -129,27 +129,27 @@ def run(repo, chk):
     chk.ob("R11.2", "externals-and-closure-variables:carry-no-tag", ext <= {"None"}, "ptera/transform.py (visit_FunctionDef)", f"externals / closure variables pass None: {sorted(ext)}")
     tree = repo.module("transform").tree
     an_fn = repo.func(f"transform.{cls}._ann")
-    ta = norm(an_fn.node)
-    chk.ob("R11.2", "_ann:only-@-strings-are-rewritten", "isinstance(ann, ast.Str) and ann.s.startswith('@')" in ta and len(returns_of(an_fn.node)) == 1 and norm(returns_of(an_fn.node)[0].value) == "ann",
-           an_fn.where, "only string annotations starting with '@' are turned into get_tags calls; anything else is passed through unchanged")
-    chk.ob("R11.2", "_ann:splits-on-&-and-strips-@", "re.split(' *& *', ann.s)" in ta and "ast.Str(s=tag[1:])" in ta, an_fn.where, "'@A & @B' is split on & and each tag name loses its '@'")
+    fa = facts_of(an_fn)
+    ap = an_fn.node.args.args[1].arg
+    gate = {f"isinstance({ap}, ast.Str)", f"{ap}.s.startswith('@')"}
+    rewrites = [c for t, c, n in fa.items if isinstance(n, ast.Assign) and any(is_name(t_, ap) for t_ in n.targets)]
+    ok = bool(rewrites) and all(gate <= set(c) for c in rewrites) and all(is_name(r.value, ap) for r in returns_of(an_fn.node)) and bool(returns_of(an_fn.node))
+    chk.ob("R11.2", "_ann:only-@-strings-are-rewritten", ok, an_fn.where, "only string annotations starting with '@' are turned into get_tags calls; anything else is passed through unchanged")
+    chk.ob("R11.2", "_ann:splits-on-&-and-strips-@", fa.mentions(f"re.split(' *& *', {ap}.s)") and fa.mentions("ast.Str(s=tag[1:])"), an_fn.where, "'@A & @B' is split on & and each tag name loses its '@'")
     mi = repo.func(f"transform.{cls}.make_interaction")
     table_writes = [n for n in walk_local(mi.node) if isinstance(n, ast.Assign) and norm(n.targets[0]).startswith("self.annotated[")]
     def guarded_by_ann(n):
-        cur, child = getattr(n, "_parent", None), n
-        while cur is not None and cur is not mi.node:
-            if isinstance(cur, ast.If) and any(child is b for b in cur.body):
-                parts = cur.test.values if isinstance(cur.test, ast.BoolOp) and isinstance(cur.test.op, ast.And) else [cur.test]
-                if any(is_name(p_, "ann") for p_ in parts):
-                    return True
-            child, cur = cur, getattr(cur, "_parent", None)
-        return False
+        return "ann" in conds(n, mi.node) or "ann is not None" in conds(n, mi.node)
     chk.ob("R11.2", "make_interaction:annotation-table-written-only-at-annotated-bindings", bool(table_writes) and all(guarded_by_ann(n) for n in table_writes), mi.where,
            "the per-variable annotation table (what verification and generic captures consult) is written only when the binding carries an annotation: "
            "a later un-annotated re-binding of the same name cannot erase the tag")
     gt = repo.func("tags.get_tags")
-    tg = norm(gt.node)
-    chk.ob("R11.2", "tags.get_tags:single-vs-set", "if len(tags) == 1: return tags[0] else: return TagSet(tags)" in tg and "getattr(tag, tg) if isinstance(tg, str) else tg" in tg, gt.where,
+    fg = facts_of(gt)
+    arg = gt.node.args.vararg.arg if gt.node.args.vararg else "tags"
+    lists = fg.bound_to(f"[getattr(tag, tg) if isinstance(tg, str) else tg for tg in {arg}]")
+    V = lists[0] if lists else "<the resolved tags>"
+    ok = len(lists) == 1 and fg.has(f"return {V}[0]", exactly=[f"len({V}) == 1"]) and fg.has(f"return TagSet({V})", exactly=[f"len({V}) != 1"]) and len(returns_of(gt.node)) == 2
+    chk.ob("R11.2", "tags.get_tags:single-vs-set", ok, gt.where,
            "get_tags returns the tag itself for one name and a TagSet for several")
 
     # ---------------- R11.3
@@ -178,19 +178,29 @@ def run(repo, chk):
     chk.ob("R11.3", "should_instrument:predicate-on-this-binding's-name-and-annotation", ok, si.where,
            "check_element is applied to the name and the evaluated annotation of the binding at hand")
     fs = repo.func("overlay.fits_selector")
-    tf = norm(fs.node)
-    chk.ob("R11.3", "overlay.fits_selector:function-tag-from-return-annotation", "fcat = pfn.__annotations__.get('return', None)" in tf and "check_element(selector.element, fname, fcat)" in tf, fs.where,
+    ff = facts_of(fs)
+    pfn = fs.node.args.args[0].arg
+    elt_test = f"check_element(selector.element, {pfn}, {pfn}.__annotations__.get('return', None))"
+    ok = ff.has("return False", exactly=[f"not {elt_test}"]) and all(elt_test in c for t, c, n in ff.items if isinstance(n, ast.Return) and t != "return False")
+    chk.ob("R11.3", "overlay.fits_selector:function-tag-from-return-annotation", ok, fs.where,
            "a tag in function position is matched against the function's return annotation")
-    chk.ob("R11.3", "overlay.fits_selector:generic-capture-expansion", "if check_element(cap, var, info['annotation'])" in tf and "if not varnames: return False" in tf, fs.where,
+    table = (ff.bound_to(f"{pfn}.__ptera_info__") or [f"{pfn}.__ptera_info__"])[0]
+    gen = ff.bound_to(f"[var for var, info in {table}.items() if check_element(cap, var, info['annotation'])]")
+    ok = len(gen) == 1 and ff.has("return False", when=["cap.name is None", f"not {gen[0]}"]) and ff.has(f"capmap[cap] = {gen[0]}", when=["cap.name is None", gen[0]])
+    chk.ob("R11.3", "overlay.fits_selector:generic-capture-expansion", ok, fs.where,
            "a generic capture expands to exactly the variables whose recorded annotation matches (none => the level does not fit)")
 
     # ---------------- R11.4
     ts = repo.func("tags.TagSet.__init__")
-    chk.ob("R11.4", "tags.TagSet.__init__:frozenset", "self.members = frozenset(members)" in norm(ts.node), ts.where, "members are kept as a frozenset (order and repetition are irrelevant)")
+    chk.ob("R11.4", "tags.TagSet.__init__:frozenset", facts_of(ts).has("self.members = frozenset(members)", exactly=[]), ts.where, "members are kept as a frozenset (order and repetition are irrelevant)")
     mg = repo.func("tags._merge")
-    tm = norm(mg.node)
-    chk.ob("R11.4", "tags._merge:union", "members.update(a.members if isinstance(a, TagSet) else {a})" in tm and "members.update(b.members if isinstance(b, TagSet) else {b})" in tm
-           and "return TagSet(members)" in tm, mg.where, "a & b is the union of both sides' members")
+    fm = facts_of(mg)
+    pa, pb = (x.arg for x in mg.node.args.args[:2])
+    accs = [t.split(" = ")[0] for t, c, n in fm.items if isinstance(n, ast.Assign) and t.endswith(" = set()")]
+    M = accs[0] if len(accs) == 1 else "<the member set>"
+    ok = all(fm.has(f"{M}.update({x}.members if isinstance({x}, TagSet) else {{{x}}})", exactly=[]) for x in (pa, pb)) and fm.has(f"return TagSet({M})", exactly=[]) \
+        and len([1 for t, _, n in fm.items if isinstance(n, ast.Call) and t.startswith(f"{M}.")]) == 2
+    chk.ob("R11.4", "tags._merge:union", ok, mg.where, "a & b is the union of both sides' members")
     eq = repo.func("tags.TagSet.__eq__")
     chk.ob("R11.4", "tags.TagSet.__eq__:by-members", norm(returns_of(eq.node)[0].value) == "isinstance(other, TagSet) and other.members == self.members", eq.where, "tag sets are equal iff their members are")
     for c in ("Tag", "TagSet"):
@@ -198,7 +208,11 @@ def run(repo, chk):
         ops = {norm(t): norm(n.value) for n in cd.body if isinstance(n, ast.Assign) for t in n.targets}
         chk.ob("R11.4", f"tags.{c}:and-is-merge", ops.get("__and__") == "_merge" and ops.get("__rand__") == "_merge", f"ptera/tags.py:{cd.lineno}", f"{c}.__and__ = __rand__ = _merge")
     tf_ = repo.func("tags._TagFactory.__getattr__")
-    chk.ob("R11.4", "tags._TagFactory:one-object-per-name", "if name not in self._cache: self._cache[name] = Tag(name)" in norm(tf_.node) and "return self._cache[name]" in norm(tf_.node), tf_.where,
+    ft = facts_of(tf_)
+    nm = tf_.node.args.args[1].arg
+    ok = ft.has(f"self._cache[{nm}] = Tag({nm})", exactly=[f"{nm} not in self._cache"]) and ft.has(f"return self._cache[{nm}]", exactly=[]) and len(returns_of(tf_.node)) == 1 \
+        and len([1 for t, _, n in ft.items if isinstance(n, (ast.Assign, ast.AugAssign, ast.Delete)) and "self._cache" in t.split("=")[0]]) == 1
+    chk.ob("R11.4", "tags._TagFactory:one-object-per-name", ok, tf_.where,
            "tag.X always returns the same Tag object (tags compare by identity)")
 
     # ---------------- R11.5
@@ -208,6 +222,6 @@ def run(repo, chk):
             for x, dec in Q.with_decisions(p.template, p.decisions):
                 if Q.is_interact(x) and isinstance(Q.Interact(x).key, Node) and Q.Interact(x).key.cls == "Call":
                     keyed = True
-    affix = "varname = key.affix_to(varname)" in norm(repo.func("interpret.Interactor.interact").node)
+    affix = facts_of(repo.func("interpret.Interactor.interact")).mentions("key.affix_to(varname)")
     chk.ob("R11.5", "make_interaction:keyed-target-instrument-name", not (keyed and affix), "ptera/transform.py (make_interaction)",
            "attribute/subscript stores are decided under the base name but delivered under the affixed name (see C02 R02.6): a tagged `self.x: @T = v` is never captured by `*:@T` under selective probing")
